@@ -479,6 +479,5 @@ crate::proof!(sgroup_two_end_same_poll, 8, { run_stream_group(3, false, 1, &[INS
 // std configuration: the real WakerVec / ReadinessVec / InlineWakerVec are in play
 crate::proof!(sgroup_keyed_micro2, 8, { run_stream_group(2, true, 1, &[INS, POLL], FREE) });
 crate::proof!(sgroup_rem_then_poll, 8, { run_stream_group(4, false, 1, &[INS, INS, rem(0), POLL], FREE) });
-crate::proof!(sgroup_items_in_order, 8, { run_stream_group(4, false, 2, &[INS, POLL, POLL, POLL], [seq2(R, R), 0, 0]) });
 crate::proof!(sgroup_pending_then_any, 8, { run_stream_group(3, false, 1, &[INS, POLL, POLL], [P, 0, 0]) });
 crate::proof!(sgroup_keyed_item_then_any, 8, { run_stream_group(3, true, 2, &[INS, POLL, POLL], [R, 0, 0]) });
